@@ -78,6 +78,21 @@ def run(chk, prog):
                         if bool_branch(f, info.dest[0]):
                             ok = True
                             why = "%s result is compared and branched on" % short(x.path)
+            # stronger: every Ok result of the function is dominated by the edge on which the delimiter was seen
+            if ok:
+                present = []
+                for x in checks:
+                    for (sb, tt, ft) in bool_branch(f, x.dest[0]):
+                        present.append((sb, tt))                      # ends_with(..) == true
+                    tracked2, cons2 = flow_forward(f, [x.dest[0]], [])
+                    for kind, b, info, l in cons2:
+                        if kind == "call" and re.search(r"cmp::PartialEq::(ne|eq)$", info.path or ""):
+                            for (sb, tt, ft) in bool_branch(f, info.dest[0]):
+                                present.append((sb, ft if info.path.endswith("::ne") else tt))   # pop() == Some(d)
+                okbs = result_blocks(f, "Ok")
+                if okbs and present and not all(any(edge_dominates(f, sb, tb, okb) for (sb, tb) in present) for okb in okbs):
+                    ok = False
+                    why = "an Ok result is reachable without passing the edge on which the delimiter was seen"
             chk.instance("S2", c.where(), "%s in %s: the delimiter is verified before the field is accepted" % (m.group(1), f.path), ok, why)
             if not ok:
                 chk.finding("S2", f.key, m.group(1), "", c.where(),
